@@ -100,7 +100,7 @@ def stream_load(run, model, vh, cfg):
 
 
 # ---------------------------------------------------------------- X1
-def stream_rows(run, model, work, table, enums, variadic):
+def stream_rows(run, model, work, table, enums, variadic, holds):
     txt, rows, sites = C.row_programs()
     path = os.path.join(work, "rows.cpp")
     open(path, "w").write(txt)
@@ -116,16 +116,36 @@ def stream_rows(run, model, work, table, enums, variadic):
         if r["meth"] == "append" and r["nargs"] == 1:
             L = C.c_strlen(r["args"])
             if L is None:
-                L = 1 if r["args"].strip() == "d" else 0    # d holds one element
+                L = 3 if r["args"].strip() == "d" else 0    # d holds three elements; an initializer list has no known length
         r["L"] = L
         r["var"] = ("std::%s::%s" % (r["kname"], r["meth"])) in variadic
         q_step.append(["step", a, y, str(r["nargs"]), "1" if r["var"] else "0", str(L)])
-        q_eff.append(["eff", str(r["kind"]), r["meth"], str(r["nargs"])])
+        if r.get("ov"):
+            q_eff.append(["effov", str(r["kind"]), r["meth"]] + C.ov_fields(r["ov"], r["n0"]))
+        else:
+            q_eff.append(["eff", str(r["kind"]), r["meth"], str(r["nargs"])])
     steps = model_lines(model, q_step)
     effs = model_lines(model, q_eff)
-    bad_step, bad_ref = [], []
+    bad_step, bad_ref, bad_fact = [], [], []
     for r, st, ef in zip(rows, steps, effs):
         tr = obs.get((r["fn"], 0))
+        if r.get("ov"):
+            # effov answers effect fields + arity + well-formedness
+            ar, wf = ef[-2], ef[-1]
+            ef = ef[:-2]
+            if int(ar) != r["nargs"] or wf != "1":
+                bad_ref.append((r, ef, "descriptor arity %s / wf %s does not fit the call (%d arguments)" % (ar, wf, r["nargs"])))
+                continue
+        # --- the property on this row: every Known/Impossible value after the call vs the executed size
+        if tr is not None:
+            szs = [v for (sid, what, v) in tr if what == "size"]
+            if len(szs) == 2:
+                for f in facts.get(r["after"], []):
+                    if f[3] == "container":
+                        run.count("rows:facts", None, nontrivial=None if trivial_fact(f) else (r["kname"], r["meth"], r["args"], r["n0"], f[:3]),
+                                  bucket="%s %s" % (r["kname"], {"K": "Known", "I": "Impossible"}[f[0]]))
+                        if not holds(szs[1], f[0], f[1], f[2]):
+                            bad_fact.append((r, f, szs))
         before = [f for f in facts.get(r["before"], []) if f[3] == "container" and f[0] == "K"]
         after = [f for f in facts.get(r["after"], []) if f[3] == "container" and f[0] == "K"]
         # --- analyzer step: model vs binary
@@ -161,7 +181,7 @@ def stream_rows(run, model, work, table, enums, variadic):
         if ef[0] == "D":
             ok = int(ef[1]) <= n and n + int(ef[2]) <= n2 <= n + int(ef[3])
         elif ef[0] == "A":
-            ok = n2 == n + r["L"]
+            ok = n2 == n + (r["ov"][1][1] if r.get("ov") else r["L"])    # the real length of the single argument
         elif ef[0] == "C":
             ok = n2 == int(ef[1])
         else:
@@ -172,6 +192,27 @@ def stream_rows(run, model, work, table, enums, variadic):
                   bucket="%s %s" % (ef[0], "exact" if ef[0] in "AC" or (ef[0] == "D" and ef[2] == ef[3]) else "range"))
         if not ok:
             bad_ref.append((r, ef, "libstdc++ took size %d to %d" % (n, n2)))
+    run.stream("rows:facts")["disagreements"] += len(bad_fact)
+    seen_rf = set()
+    for r, f, szs in bad_fact:
+        a, y = table.get(r["cid"], {}).get(r["meth"], ("", ""))
+        uniq_push = r["kind"] in (6, 8) and a == str(enums["actions"].index("PUSH")) if "PUSH" in enums["actions"] else False
+        if uniq_push:
+            continue        # reported by unsound_rows with the model's witness (push-on-unique-key)
+        key = "rowfact:%s.%s/%s" % (r["kname"], r["meth"], "ov:%s%s" % (r["ov"][0][0], r["ov"][1][0]) if r.get("ov") else r["nargs"])
+        if key in seen_rf:
+            continue
+        seen_rf.add(key)
+        K = C.ROW_KINDS[r["kind"]]
+        prog = "\n".join(["#include <string>", "#include <vector>", "#include <deque>", "#include <list>", "void sink(int, unsigned long);", "void f() {",
+                          "  %s c;" % K["ty"], "  %s d;" % K["ty"]] + ["  " + K["grow"] % (j + 1) for j in range(r["n0"])] +
+                         ["  " + (K["grow"] % j).replace("c.", "d.") for j in (4, 5, 6)] +
+                         ["  c.%s(%s);" % (r["meth"], r["args"]), "  sink(1, c.size());", "}"]) + "\n" if K["grow"] else ""
+        run.violation(key, "after c.%s(%s) on a std::%s of size %d (d has 3 elements) cppcheck reports %s container-size %d (bound %s), the execution has size %d"
+                      % (r["meth"], r["args"], r["kname"], r["n0"], {"K": "Known", "I": "Impossible"}[f[0]], f[2], f[1], szs[1]),
+                      {"program": prog, "fact": {"kind": f[0], "bound": f[1], "value": f[2]}, "executed_size": szs[1],
+                       "row": {k: r[k] for k in ("kname", "cid", "meth", "args", "nargs", "n0")},
+                       "how": "cppcheck --dump --library=std on `program`: container-size value of `c` in c.size(); compile with a main that defines sink and calls f() (g++ -D_GLIBCXX_DEBUG -fsanitize=address,undefined)"})
     run.stream("rows:step")["disagreements"] += len(bad_step)
     run.stream("rows:reference")["disagreements"] += len(bad_ref)
     for r, st, want, got in bad_step[:3]:
@@ -233,6 +274,15 @@ def unsound_rows(run, model, rows, facts, obs, sites, holds, table, push_idx):
         else:
             not_reproduced.append("%s.%s" % (cont, meth))
     run.extra["model_unsound_not_reproduced_on_binary"] = not_reproduced
+    flat = model_lines(model, [["unsoundov"]])[0]
+    ov = sorted(set("%s.%s" % (flat[i], flat[i + 1]) for i in range(0, len(flat) - len(flat) % 6, 6))) if flat and flat != ["E"] else []
+    run.extra["model_unsound_overload_members"] = ov
+    ncases = model_lines(model, [["ovcases"]])[0]
+    run.extra["overload_shapes_on_table"] = len(ncases) // 6
+    for cm in ov:
+        if not any(v.key.endswith(":" + cm) for v in run.violations):
+            run.violation("table-unsound-overload:" + cm, "the model lists an overload shape of %s whose analyzer step is not justified by the standard's effect (unsound_ov_cases)" % cm,
+                          {"broken": "table", "member": cm, "cases": flat}, found_input=False)
 
 
 # ---------------------------------------------------------------- X2 / X3
@@ -624,7 +674,7 @@ def check(run, replay):
     work = tempfile.mkdtemp(prefix="c02_", dir=vlib.BUILD)
     try:
         try:
-            rows, rfacts, robs, rsites, rtxt = stream_rows(run, model, work, table, info, C.variadic_functions(vlib.REPO))
+            rows, rfacts, robs, rsites, rtxt = stream_rows(run, model, work, table, info, C.variadic_functions(vlib.REPO), holds)
             unsound_rows(run, model, rows, rfacts, robs, rsites, holds, table, str(info["actions"].index("PUSH")) if "PUSH" in info["actions"] else "-")
         except C.CompileError as e:
             run.violation("rows:compile", "the row programs do not compile: " + str(e)[-300:], {"broken": "row templates", "detail": str(e)[-3000:]}, found_input=False)
